@@ -24,6 +24,14 @@ Theorem C06_asls_system : forall (hp : bool) (bs : Z) (N : nat) (lam : Z) (d : n
 Proof. exact asls_system. Qed.
 Print Assumptions C06_asls_system.
 
+(* utils.whittaker_smooth (its own PenalizedSystem with the constructor defaults, one pass):
+   (W + lam D'D) v = W y for arbitrary (non-binary) weights *)
+Theorem C06_whittaker_smooth_system : forall (hp : bool) (N : nat) (lam : Z) (d : nat) (w y : Z -> Z),
+  (1 <= d < N)%nat -> 0 < lam ->
+  exists k, whittaker_smooth hp N lam d w y = Some k /\ sys_ok N (doc_asls N d lam w) (mulv w y) k.
+Proof. exact whittaker_smooth_system. Qed.
+Print Assumptions C06_whittaker_smooth_system.
+
 (* iasls: (W^2 + lam_1 D1'D1 + lam D'D) v = (W^2 + lam_1 D1'D1) y *)
 Theorem C06_iasls_system : forall (hp : bool) (bs : Z) (N : nat) (lam lam1 : Z) (d : nat) (wl : list (Z -> Z)) (y : Z -> Z),
   (2 <= d < N)%nat -> 0 < lam ->
